@@ -101,7 +101,20 @@ def gen_case(rng, tier, idx):
         if kind == "printf":
             s["text"] = "".join(rng.choice("ab c:=") for _ in range(rng.randint(1, 10)))
         specs.append(s)
-    return {"files": files, "specs": specs, "subset_seed": rng.getrandbits(32)}
+    case = {"files": files, "specs": specs, "subset_seed": rng.getrandbits(32)}
+    if rng.random() < 0.4:
+        # parallel collection: the persister serialises list elements on a thread pool; the first element of every
+        # list is made much more expensive to serialise than the later ones
+        case["pool"] = rng.choice([2, 4, 8])
+        big = ["id%d:" % n + "B" * 200 for n in range(3000)]
+        first = names[0]
+        files[first] = big + [""] * rng.choice([0, 1])
+        for s in specs:
+            if s["kind"] in ("foreach_collect", "foreach_execute"):
+                s["items"] = [first] + [x for x in s["items"] if x != first]
+            if s["kind"] == "datasource_provider_list":
+                s["content"] = [list(big)] + s["content"] + [["id0:tiny"]]
+    return case
 
 
 def nontrivial(spec):
@@ -231,12 +244,21 @@ def run_case(spec, ctx):
         br = dr.Broker()
         hc = EngineContext(root=root)
         br[HostContext] = hc
-        h = Hydration(out, hc)
+        pool = None
+        if spec.get("pool"):
+            from concurrent.futures import ThreadPoolExecutor
+            pool = ThreadPoolExecutor(max_workers=spec["pool"])
+            ctx.count("archives_written_with_thread_pool")
+        h = Hydration(out, hc, pool=pool)
         br.add_observer(h.make_persister(set(pts)))
         graph = {}
         for p in pts:
             graph.update(dr.get_dependency_graph(p))
-        dr.run(dict(graph), broker=br)
+        try:
+            dr.run(dict(graph), broker=br)
+        finally:
+            if pool is not None:
+                pool.shutdown(wait=True)
         os.makedirs(out, exist_ok=True)
         open(os.path.join(out, "insights_archive.txt"), "w").close()
         ctx.count("archives_written")
